@@ -91,6 +91,11 @@ def run(chk: Check) -> None:
     _reader_agreement(chk, schema, pf, msgs)
     _enums(chk, schema, pf)
     _header(chk)
+    # the deferred half of the reader (symbolic expressions) belongs to the reader direction
+    from .loader import deferred_stage
+    sub = chk.sub()
+    deferred_stage(sub, "R02.3")
+    chk.adopt(sub, None, "R02.3")
     # (AuxData, data): exempt from the generic name rule, decided by the raw-reuse rule
     from .c14 import _to_protobuf, _typestate
     sub = chk.sub()
@@ -763,6 +768,26 @@ def _header(chk: Check) -> None:
     chk.ob("R02.5", "IR.save_protobuf_file:layout", ok, save.loc(),
            "the writer emits %s; the format is b'GTIRB', two zero bytes, the 1-byte "
            "PROTOBUF_VERSION, then the serialised IR message" % (seq,), 4)
+    # the path variants open the named file with the builtin open in binary mode — "wb" truncates,
+    # so what save leaves in the file is the header and one message, nothing else — and hand the
+    # stream to the stream variant
+    for nm_, mode_, callee_ in (("save_protobuf", "wb", "save_protobuf_file"), ("load_protobuf", "rb", "load_protobuf_file")):
+        g_ = ir.methods.get(nm_)
+        if g_ is None:
+            continue
+        chk.saw(g_)
+        fn_param = [p_ for p_ in g_.param_names() if p_ not in ("self", "cls")][:1]
+        opens = [c for c in ast.walk(g_.node) if isinstance(c, ast.Call) and isinstance(c.func, ast.Name)
+                 and c.func.id == "open"]
+        ok_open = len(opens) == 1 and len(opens[0].args) >= 2 and fn_param and \
+            attr_path(opens[0].args[0]) == (fn_param[0],) and isinstance(opens[0].args[1], ast.Constant) \
+            and opens[0].args[1].value == mode_ and not opens[0].keywords
+        other_io = [c for c in ast.walk(g_.node) if isinstance(c, ast.Call) and (dotted(c.func) or ("",))[0] in ("os", "io", "pathlib", "tempfile", "shutil")]
+        delegates = any(isinstance(c, ast.Call) and isinstance(c.func, ast.Attribute) and c.func.attr == callee_
+                        for c in ast.walk(g_.node))
+        chk.ob("R02.5", "IR.%s:opens-%s" % (nm_, mode_), ok_open and not other_io and delegates, g_.loc(),
+               "IR.%s must open the named file with open(<name>, %r) and pass the stream to %s; it uses %s"
+               % (nm_, mode_, callee_, unparse((other_io or opens or [g_.node])[0])[:60]), 2)
     # reader: read sizes 5,1,1,1 then the rest; first compared with the magic, fourth with version
     rstream = load.param_names()[0]
     reads = []
@@ -1001,7 +1026,19 @@ def _whole_collections(chk: Check, schema: Schema, pf: ProtoFlow, msgs: List[str
                "%s.%s must be filled from the whole of <obj>.%s; %s iterates %s%s: members outside that "
                "selection are silently not written" % (w.msg, w.field, want, w.f.qualname,
                                                         why or unparse(it)[:60], " with a filter" if flt else ""), 3)
+        # an ordered collection is written in its own order: later modules may refer to earlier
+        # ones (the loader resolves references module by module)
+        if (w.msg, w.field) in ORDERED_FIELDS:
+            reordered = [x for x in ast.walk(it) if isinstance(x, ast.Call) and
+                         (dotted(x.func) or ("",))[-1] in ("sorted", "reversed", "set", "frozenset")]
+            chk.ob("R02.2", "%s.%s@%s:list-order" % (w.msg, w.field, w.f.qualname), not reordered, w.loc,
+                   "%s.%s mirrors an ordered list; %s writes it through %s: the saved order differs from "
+                   "the list's, and a module that refers to an earlier one may be loaded first"
+                   % (w.msg, w.field, w.f.qualname, unparse(reordered[0].func) if reordered else ""), 2)
     chk.floor("R02.2", "repeated/map field writers", n, 6)
+
+
+ORDERED_FIELDS = {("IR", "modules")}
 
 
 def _fresh_objects(chk: Check, schema: Schema, pf: ProtoFlow) -> None:
